@@ -1,6 +1,7 @@
 import Proofs.LoadPerm
 import Proofs.LoadApiRun
 import Proofs.LoadClone
+import Proofs.LoadDomain
 import Gen.Sharing
 
 /-!
@@ -32,6 +33,19 @@ theorem matchesB_iff_Matches (a : AssocStmt) (s t : Row) : matchesB a s t = true
 /-- the null values: unset, the id 0, the empty string — not the integer 0, the real 0.0 or `False` -/
 theorem isNull_spec (v : Val) : isNull v = true ↔ v = .none ∨ v = .id 0 ∨ v = .str "" := by
   cases v <;> simp [isNull]
+
+/-- **tyName_case**: type names are case-insensitive, as the code's `.upper()` makes them: two spellings that agree
+    after upper-casing denote the same type (or are both unknown) -/
+theorem tyName_case (cs1 cs2 : List Char) (h : cs1.map upperChar = cs2.map upperChar) :
+    Ty.ofChars cs1 = Ty.ofChars cs2 := by
+  unfold Ty.ofChars
+  rw [h]
+
+example : Ty.ofChars ['u', 'n', 'i', 'q', 'u', 'e', '_', 'i', 'd'] = some .uniqueId ∧
+    Ty.ofChars ['U', 'n', 'i', 'q', 'u', 'e', '_', 'I', 'd'] = some .uniqueId ∧
+    Ty.ofChars ['s', 't', 'r', 'i', 'n', 'g'] = some .string ∧ Ty.ofChars ['S', 't', 'r', 'i', 'n', 'g'] = some .string ∧
+    Ty.ofChars ['b', 'O', 'O', 'L', 'E', 'A', 'N'] = some .boolean ∧
+    Ty.ofChars ['u', 'n', 'i', 'q', 'u', 'e', 'i', 'd'] = none := by decide
 
 /-- **join_exact**: the loader's hashed index join links source row `i` and target row `j` — in both
     link directions — exactly when the key predicate holds for them; no other pair, no pair missed. -/
@@ -147,6 +161,11 @@ theorem build_perm (s1 s2 : List Stmt) (hp : s1.Perm s2) (hu : UniqNamesOk s1) (
         rw [(popAssocs_perm hp).mem_iff, (hr a.srcKind).mem_iff, (hr a.tgtKind).mem_iff]
     · simp [hacc1] at h1
 
+/-- **inDomain_perm**: the domain on which the model is claimed faithful to the code (`Pyx.Load.inDomain`, evaluated
+    by the driver on every compared case) is closed under the permutations of `build_perm`. -/
+theorem inDomain_perm (s1 s2 : List Stmt) (hp : s1.Perm s2) : inDomain s1 = inDomain s2 :=
+  Pyx.Load.inDomain_perm hp
+
 /-- **build_perm_ordered**: if moreover the permutation keeps the relative order of the INSERTs of every
     class, the instances of every class are in the same order and every association carries the same
     ordered partner lists (instances named by their position). -/
@@ -201,8 +220,9 @@ theorem input_split_perm (parts1 parts2 : List (List Stmt)) (h : parts1.flatten.
     `MetaClass.new`, its batch relate, `relate`, `_find_link` and the cardinality-checked `Link.connect`, as the
     code is now) raise nothing and yield exactly the links — same ordered partner lists, both directions — and the
     same stored rows as loading the schema followed by the INSERTs of the same rows, under the guards `ApiGuards`:
-    referred rows first; no cardinality-violating duplicates (the API relates with the cardinality check, the
-    loader connects unchecked); key lists non-empty (`new` never relates over an empty key list), without
+    referred rows first — ROW-wise: when a row of a referred class is created, no row created before it refers
+    to it (any topological order of the rows; class by class is a special case, `referredFirst_of_classwise`);
+    no cardinality-violating duplicates (the API relates with the cardinality check, the loader connects unchecked); key lists non-empty (`new` never relates over an empty key list), without
     repeats; no reflexive association; identifying attributes stored, not themselves referential; and
     `_find_link(referred, referring, rel, link.phrase)` answering with the association itself (`ResolvesAt`) —
     the guard that the open finding `api-phrased-direction` violates for associations whose ends carry
@@ -258,6 +278,20 @@ theorem clone_equiv (ss : List Stmt) (order : List (String × List Val)) (g : Ap
     apply List.map_congr_left
     intro a ha
     rw [nestedJoin_readOrder ss order g a ha]
+
+/-- creating the rows class by class, referred classes first, is a special case of the row-wise guard -/
+theorem referredFirst_of_classwise (ss : List Stmt) (order : List (String × List Val)) (a : AssocStmt)
+    (h : ∀ pre o suf, order = pre ++ o :: suf → o.1 = a.srcKind → ∀ r ∈ suf, r.1 ≠ a.tgtKind) :
+    ∀ pre o suf, order = pre ++ o :: suf → o.1 = a.tgtKind →
+      ∀ s ∈ rawRows ss pre a.srcKind, matchesB a s (rawRow ss o) = false := by
+  intro pre o suf hord hk s hs
+  exfalso
+  unfold rawRows at hs
+  obtain ⟨r, hr, _⟩ := List.mem_map.mp hs
+  obtain ⟨hrm, hrk⟩ := List.mem_filter.mp hr
+  obtain ⟨p1, p2, hp⟩ := List.append_of_mem hrm
+  have hord' : order = p1 ++ r :: (p2 ++ o :: suf) := by rw [hord, hp]; simp
+  exact h p1 r (p2 ++ o :: suf) hord' (by simpa using hrk) o (by simp) hk
 
 /-- a sufficient condition for the guard `resolves`: relationship numbers are not reused and both ends of
     every association carry the same phrase (e.g. none) -/
@@ -346,8 +380,9 @@ example : (apiBuild exSchema exOrder).2 = exOrder.map (fun _ => Outcome.ok) := b
 example : ((apiBuild exSchema exOrder).1.assocs.map (fun p => (p.2.tgt 0, p.2.tgt 1, p.2.tgt 2, p.2.src 0))) =
     [([0], [], [], [0])] := by decide
 
+/-- rows of the two classes interleaved: a topological order of the rows that is not class-wise -/
 def exOrder2 : List (String × List Val) :=
-  [ ("B", [.id 7, .str "n"]), ("A", [.int 1, .id 7, .str "n"]), ("A", [.int 2, .id 0, .str "n"]) ]
+  [ ("B", [.id 7, .str "n"]), ("A", [.int 1, .id 7, .str "n"]), ("B", [.id 8, .str "n"]), ("A", [.int 2, .id 8, .str "n"]) ]
 
 example : ApiGuards exSchema exOrder2 := by
   have hA : popAssocs exSchema = [exA] := by decide
@@ -368,21 +403,26 @@ example : ApiGuards exSchema exOrder2 := by
     | zero => simp at hn; subst hn; unfold ResolvesAt; decide
     | succ n => simp at hn
   · rw [hA]
-    intro a ha pre o suf hord hk r hr
+    intro a ha pre o suf hord hk s hs
     simp only [List.mem_singleton] at ha
     subst ha
-    -- the only rows of the referring class are the last two
+    -- a row of the referred class is created first and third; the referring row that exists then does not match
     match pre, hord with
-    | [], h => simp [exOrder2] at h; obtain ⟨rfl, _⟩ := h; simp [exA] at hk
+    | [], h => simp [rawRows] at hs
     | [_], h =>
       simp [exOrder2] at h
-      obtain ⟨_, _, rfl⟩ := h
-      simp at hr; subst hr; decide
+      obtain ⟨_, rfl, _⟩ := h
+      simp [exA] at hk
     | [_, _], h =>
       simp [exOrder2] at h
-      obtain ⟨_, _, _, rfl⟩ := h
-      simp at hr
-    | _ :: _ :: _ :: _, h => simp [exOrder2] at h
+      obtain ⟨rfl, rfl, rfl, _⟩ := h
+      revert s hs
+      decide
+    | [_, _, _], h =>
+      simp [exOrder2] at h
+      obtain ⟨_, _, _, rfl, _⟩ := h
+      simp [exA] at hk
+    | _ :: _ :: _ :: _ :: _, h => simp [exOrder2] at h
   · rw [hA]; decide
   · rw [hA]; decide
 
